@@ -15,12 +15,15 @@ def qs_local(n: Py) -> B:
             return len(n.args) == 2 and op_lambda(n.args[1])
         if n.func.id == "First":
             return len(n.args) >= 1
+    if isinstance(n, ast.Dict):
+        return len(n.keys) == len(n.values)      # what Python's parser builds
     return True
 
 
 def qs(n: Py) -> B:
     """Query shape, at every depth: Select/SelectMany/Where(source, lambda) have exactly two
-    arguments, the second a Lambda with a parameter; First(...) has an argument."""
+    arguments, the second a Lambda with a parameter; First(...) has an argument; a dictionary
+    display has as many keys as values."""
     return qs_local(n) and all_children(qs, n)
 
 
